@@ -578,6 +578,12 @@ func (p *Packer) Unpack(r io.Reader, dst string) (err error) {
 			return &IllegalSlugError{Err: err}
 		}
 
+		// Extended header entries only carry metadata: nothing is extracted
+		// for them, so no directory is made for the name they happen to have.
+		if info.IsTypeX() {
+			continue
+		}
+
 		// Make the directories to the path.
 		dir := filepath.Dir(info.Path)
 
